@@ -152,6 +152,19 @@ CLAIMED = {
         note="Trusted: TLC; names limited to two identifiers and one metadata name; whitespace variants are sampled "
              "(seeded), not enumerated. Known findings F9a/F9b.",
         design="4/C15"),
+    "C16": dict(
+        technique=TLA + "the declarative Observe.tla judges both mechanisms: each legacy extended name is mapped to its "
+                  "corresponding observe expression, both handlers are registered together on a real pool whose heap is "
+                  "kept a forest, and every recorded step (calls during the change, probe of every object afterwards) is "
+                  "judged by TLC (Trace_Legacy) - agreement of the two systems follows from agreement with the one "
+                  "specification",
+        text="Seeded histories (quick 24k steps) over 9 extended names (series, ':' links, list and dict links at first "
+             "and nested level) on tree-shaped graphs of 6 objects with fresh objects at every insertion and in-place "
+             "permutations: final-attribute reachability for both systems, intermediate link assignments reported for "
+             "'.' and not for ':', silence after removal.",
+        note="Trusted: TLC; 4-argument legacy handlers, dispatch 'same'; in-place mutation of a container link is only "
+             "required to be silent for ':' links (the legacy system documents signature-dependent special cases).",
+        design="4/C16"),
     "C17": dict(
         technique=TLA + "the _adapt priority-queue algorithm is model-checked against the declarative definition of "
                   "successful adapter chains for every configuration; every enumerated configuration and seeded larger "
